@@ -223,7 +223,10 @@ func (rt *runtime) cmplEvaluateNodeForInStatement(node *nodeForInStatement) Valu
 				case valueResult:
 					switch value.evaluateBreakContinue(labels) {
 					case resultReturn:
+						// return, or break/continue aimed at an enclosing statement:
+						// the whole for-in ends here, prototypes included.
 						enumerateValue = value
+						obj = nil
 						return false
 					case resultBreak:
 						obj = nil
@@ -239,6 +242,9 @@ func (rt *runtime) cmplEvaluateNodeForInStatement(node *nodeForInStatement) Valu
 			return true
 		})
 		if obj == nil {
+			if enumerateValue.kind == valueResult {
+				return enumerateValue
+			}
 			break
 		}
 		obj = obj.prototype
